@@ -68,7 +68,7 @@ func contractMentions(fc *FuncContract, prop string) bool {
 			}
 		}
 	}
-	for _, k := range []string{"safety", "frame", "props"} {
+	for _, k := range []string{"safety", "frame", "props", "cancelable", "refinetags"} {
 		if v, ok := fc.Opts[k]; ok && hasTag(splitList(strings.Trim(v, "[]")), prop) {
 			return true
 		}
@@ -110,6 +110,7 @@ func verifyFunction(p *Program, cs *Contracts, fc *FuncContract, fn *ssa.Functio
 		rep.Obls = append(rep.Obls, &Obligation{Name: name + "/cover/requires", Func: name, Kind: "cover", Label: "requires",
 			Prefix: x.requiresPrefix, Guard: "true", Goal: "true", Cover: true, Enc: enc, Src: "requires are satisfiable"})
 	}
+	rep.Obls = append(rep.Obls, disciplineObligations(fn, name, fc, enc)...)
 	rep.Notes = enc.notes
 	for a := range enc.assumptionsUsed {
 		rep.Assume = append(rep.Assume, a)
